@@ -20,9 +20,10 @@ def main(argv):
         ok, log = common.ensure_built()
         print(json.dumps({"what": body["what"], "concrete": body["concrete_failing_input"]}, indent=1))
         if isinstance(body["replay"], dict) and "generated_model" in body["replay"]:
-            import gencheck, gencheck12, gencheck01, gencheck_enc
+            import gencheck, gencheck12, gencheck01, gencheck_enc, gencheck_misc
             gm = body["replay"]["generated_model"]
             r = (gencheck12 if gm in gencheck12.ORDER else gencheck01 if gm in gencheck01.ORDER else
+                 gencheck_misc if gm in gencheck_misc.PROOFS else
                  gencheck_enc if gm in gencheck_enc.PROOFS or gm == "transfer" else gencheck).replay(ctx, body["replay"])
             print("REPLAY:", "still failing" if r else "passes now")
             return 1 if r else 0
@@ -62,13 +63,14 @@ def main(argv):
     except Exception:
         tb = traceback.format_exc()
         ctx.report("the check itself crashed: " + tb.splitlines()[-1], {"traceback": tb}, concrete=False)
-        if "generated_model" not in ctx.engines and pid in ("C01", "C02", "C07", "C08", "C10", "C12", "C17", "C19"):
+        if "generated_model" not in ctx.engines and pid in ("C01", "C02", "C07", "C08", "C10", "C12", "C15", "C16", "C17", "C19"):
             # the engine died before its generated-model tie (last call of run()) was reached: run it now, it searches for a concrete input
             try:
                 import gencheck, gencheck12, gencheck01
-                import gencheck_enc
+                import gencheck_enc, gencheck_misc
                 {"C01": lambda: (gencheck01.run_generated_c01(ctx), gencheck_enc.run_generated_kpc(ctx)), "C17": lambda: gencheck01.run_generated_c17(ctx),
                  "C02": lambda: gencheck_enc.run_generated_kfd(ctx), "C07": lambda: gencheck_enc.run_generated_klae(ctx), "C08": lambda: gencheck_enc.run_generated_kmpe(ctx),
+                 "C15": lambda: gencheck_misc.run_generated_c15(ctx), "C16": lambda: gencheck_misc.run_generated_c16(ctx),
                  "C10": lambda: gencheck.run_generated(ctx, ["max_occurrence"]),
                  "C19": lambda: gencheck.run_generated(ctx, ["nonneg_check", "check_flow_conservation"]),
                  "C12": lambda: gencheck12.run_generated_rows(ctx)}[pid]()
